@@ -14,7 +14,7 @@ TRUSTED = [
     "IEEE-754 double arithmetic and libm accuracy (<= 2 ulp); CPython's sum/float.__pow__/math.log(x, b)/hash/repr/dict order as documented",
 ]
 
-ASSUME_RANGE = "points are finite and no exact intermediate leaves ordinary floating-point range (cases outside are counted as skipped, not judged)"
+ASSUME_RANGE = "points are finite and no exact intermediate exceeds 1e250 in magnitude or underflows to 0.0 (cases outside are counted as skipped or rounding-ambiguous, not judged); subnormal intermediates are judged, the double instance of the model carries an absolute underflow term"
 
 
 def sizes(tier: str, quick: int, thorough: int) -> int:
@@ -495,5 +495,37 @@ def int_exact(rng: random.Random, count: int) -> list[tuple]:
             parents += [X.NthRoot(S, 2), X.Logarithm(S), X.NthRoot(S, 4)]
         for e in rng.sample(parents, 3):
             out.append((e, dict(p)))
+    return out
+
+
+def tiny_powers(rng: random.Random, count: int) -> list[tuple]:
+    """(expression, point): an integer power (or a product of equal factors, a square under a root, an exponential)
+    whose *value* is a subnormal double or underflows to 0.0 while its derivative, or the part of the tree that
+    uses it, is an ordinary number - a formula that recomputes something from the node's own value (u**n / u) loses
+    what the direct formula (n * u**(n-1)) keeps"""
+    X, V, C = gen.X, gen.X.Variable, gen.X.Constant
+    x, y = V("x"), V("y")
+    out = []
+    for _ in range(count):
+        n = rng.choice([2, 2, 3, 4, 5, 7, 10, 20, 21, 23, 40])
+        digits = rng.randint(309, 330)           # u**n is about 10**-digits: subnormal up to 323, then 0.0
+        mag = 10.0 ** (-digits / n) * rng.choice([1.0, 1.7, 0.31])
+        sign = rng.choice([1.0, 1.0, -1.0])
+        kind = rng.randrange(5)
+        if kind == 0:
+            u, pt = x, {"x": sign * mag}
+        elif kind == 1:
+            u, pt = X.Add(x, y), {"x": sign * mag * 4, "y": -sign * mag * 3}
+        elif kind == 2:
+            u, pt = X.Multiply(C(sign), x), {"x": mag}
+        elif kind == 3:
+            u, pt = X.Minus(x, C(1.0)), {"x": 1.0 + sign * max(mag, 2.0 ** -40)}
+        else:
+            u, pt = X.Multiply(x, y), {"x": sign * mag ** 0.5, "y": mag ** 0.5}
+        core = rng.choice([X.NthPower(u, n), X.NthPower(u, n), X.Multiply(*([u] * min(n, 5))), X.Power(X.NthPower(u, 2), C(n / 2.0)),
+                           X.NthPower(X.NthPower(u, 2), max(1, n // 2))])
+        e = rng.choice([core, X.Multiply(C(1e300), core), X.Add(core, x), X.Multiply(core, X.Exponential(y if "y" in pt else x)),
+                        X.Sine(core), X.Add(core, C(1.0)), X.Divide(core, C(1e-300)), X.Negation(core)])
+        out.append((e, {k: pt[k] for k in sorted(e._variable_names) if k in pt} | {k: 1.5 for k in e._variable_names if k not in pt}))
     return out
 
